@@ -102,6 +102,12 @@ class World:
         op["_expect_body"] = body
         status = ps.get("status", 200)
         hdr = f"HTTP/1.1 {status} X\r\nX-Exchange: {n}\r\n"
+        if ps.get("announce_close") == "header":
+            hdr += "Connection: close\r\n"
+            peer.tainted = peer.tainted or f"response r{n} announced Connection: close"
+        elif ps.get("announce_close") == "http10":
+            hdr = hdr.replace("HTTP/1.1", "HTTP/1.0", 1)  # HTTP/1.0 response without keep-alive: not persistent
+            peer.tainted = peer.tainted or f"response r{n} was HTTP/1.0 without keep-alive"
         fr = ps.get("framing", "cl")
         if status in (204, 304) or head.startswith(b"HEAD "):
             # no body on the wire whatever the framing headers say (RFC 9112 6.3): the next response follows immediately
@@ -364,6 +370,7 @@ def cases(draw, narrow: bool):
         "peer": st.fixed_dictionaries({
             "framing": st.sampled_from(["cl", "cl", "chunked", "eof"]),
             "status": st.sampled_from([200, 200, 200, 204, 304]),
+            "announce_close": st.sampled_from([None, None, None, None, "header", "http10"]),
             "size": st.sampled_from([0, 1, 10, 300]),
             "surplus": st.sampled_from([None, None, "garbage", "response", "two_responses", "partial"]),
             "surplus_when": st.sampled_from(["same", "later"]),
@@ -385,6 +392,8 @@ def cases(draw, narrow: bool):
                 ps["truncate"] = None  # a shortened EOF-delimited body cannot be told from a complete one
             if o.get("expect"):
                 o["head"] = False
+            if ps["framing"] == "chunked" and ps.get("announce_close") == "http10":
+                ps["announce_close"] = None  # no chunked coding in HTTP/1.0
             if o.get("head") or ps["status"] in (204, 304):
                 ps["truncate"] = None  # nothing to truncate: these responses end with the header block
                 if ps["framing"] == "eof":
